@@ -255,3 +255,18 @@ func vc19Aggregates(maxTrials, maxGens int) {
 
 func VC19_Aggregates_Quick()    { vc19Aggregates(2, 2) }
 func VC19_Aggregates_Thorough() { vc19Aggregates(2, 3) }
+
+// IEEE arithmetic: a series of two equal finite values has variance and standard deviation exactly 0 and mean
+// exactly that value - never NaN or a rounding residue, however large the value (a formula that is only
+// algebraically equal to the definition, e.g. sum of squares minus squared sum, overflows or cancels here).
+func VC19_Floats_F() {
+	v := vFloat("x")
+	vAssume(vAnd(v >= -1e300, v <= 1e300))
+	x := Floats{v, v}
+	vAssert(x.Mean() == v, "IEEE: the mean of {x, x} is x")
+	vAssert(x.Variance() == 0, "IEEE: the variance of {x, x} is exactly 0 (not NaN, no residue)")
+	vAssert(x.StdDev() == 0, "IEEE: the standard deviation of {x, x} is exactly 0")
+	mv := x.MeanVariance()
+	vAssert(len(mv) == 2 && mv[0] == v && mv[1] == 0, "IEEE: MeanVariance of {x, x} is (x, 0)")
+	vReach("end")
+}
